@@ -17,13 +17,15 @@ What is a PARAMETER of the model and not modelled here:
   aberration) as a function of the epoch's JDE.  The R theorems hold for an arbitrary function; the
   F tie feeds the values the implementation saw (see `sunLonOfTable`).
 * `mk : Num → PyRes Num` — the constructor `Epoch(jde)` of a float, which stores `jde`, reads the
-  calendar date back (`get_full_date`) and recomputes the JDE from it.  F: `mkEpoch` below (through
-  EpochCore's `get_date`/`compute_jde`); R theorems: arbitrary, or the identity where stated.
+  calendar date back (`get_full_date`) and recomputes the JDE from it.  The model's own constructor
+  is `mkEpoch` below (through EpochCore's `get_date`/`compute_jde`, both instantiations); over ℝ it
+  is the identity on `jde ≥ 0` (Refine/EpochCoreR.lean: `mkEpoch_exact`), so the season theorems are
+  stated for an arbitrary `mk` and then for `mkEpoch` itself.
 * the values of `Epoch.leap_seconds(year, month)`, of α / Δψ / ε in `equation_of_time`: inputs.
 -/
-import Pymeeus.Pre@K@
+import Pymeeus.Gen.@K@.EpochCore
 --@only F
-import Pymeeus.Gen.F.EpochCore
+import Pymeeus.Gen.F.SunEarth
 --@end
 namespace Pymeeus.Gen@K@
 namespace SunEvents
@@ -78,6 +80,23 @@ def round0 (x : Num) : Num :=
   let r := ofInt (PF.pround x)
   if r == 0.0 && (x.toBits >>> 63 == 1) then -0.0 else r
 
+/-- The function "the implementation's solar longitude at the epochs it asked for": `jdes[i] ↦
+    lons[i]` (compared bit for bit), NaN anywhere else. -/
+def sunLonOfTable (jdes lons : List Num) (x : Num) : Num :=
+  match (jdes.zip lons).find? (fun p => p.1.toBits == x.toBits) with
+  | some p => p.2
+  | none => 0.0 / 0.0
+--@end
+--@only R
+/-- `round(x)`: nearest int, ties to even. -/
+def roundHE (x : Num) : Int :=
+  let f := pfloor x
+  let r := x - ofInt f
+  if plt r (1 / 2) then f else if plt (1 / 2) r then f + 1 else if f % 2 = 0 then f else f + 1
+/-- `round(x, 0)`: the same as a float. -/
+def round0 (x : Num) : Num := ofInt (roundHE x)
+--@end
+
 /-- `Epoch(jde)` for a float (Epoch.set, one numeric argument): `self._jde = jde`, then
     `get_full_date()` and `_compute_jde(year, month, day, utc2tt=False)`. -/
 def mkEpoch (jde : Num) : PyRes Num :=
@@ -95,23 +114,6 @@ def mkEpoch (jde : Num) : PyRes Num :=
     -- day += hours / DAY2HOURS + minutes / DAY2MIN + sec / DAY2SEC
     let day := ofInt di + (ofInt h / 24.0 + ofInt mi / 1440.0 + s / 86400.0)
     .ok (compute_jde y m day)
-
-/-- The function "the implementation's solar longitude at the epochs it asked for": `jdes[i] ↦
-    lons[i]` (compared bit for bit), NaN anywhere else. -/
-def sunLonOfTable (jdes lons : List Num) (x : Num) : Num :=
-  match (jdes.zip lons).find? (fun p => p.1.toBits == x.toBits) with
-  | some p => p.2
-  | none => 0.0 / 0.0
---@end
---@only R
-/-- `round(x)`: nearest int, ties to even. -/
-def roundHE (x : Num) : Int :=
-  let f := pfloor x
-  let r := x - ofInt f
-  if plt r (1 / 2) then f else if plt (1 / 2) r then f + 1 else if f % 2 = 0 then f else f + 1
-/-- `round(x, 0)`: the same as a float. -/
-def round0 (x : Num) : Num := ofInt (roundHE x)
---@end
 
 /-- `x - 360.0 * round(x / 360.0)` on floats (`round` with one argument: an int, ties to even):
     the reduction to −180 … +180 used by `equation_of_time`, `interpol` and the transit hour angle. -/
@@ -190,6 +192,21 @@ def get_equinox_solstice (mk : Num → PyRes Num) (sunLon : Num → Num) (fuel :
         | some (.error err) => .error err
         | some (.ok e) => .ok (some e)
 
+--@only F
+/-- `Sun.apparent_geocentric_position(epoch)[0]._deg` as modelled by templates/SunEarth.lean (property
+    C08: VSOP87 Earth, FK5, nutation, aberration, reflected to the Sun).  An exception inside that
+    model becomes NaN, which cannot agree with any instant the implementation returns. -/
+def sunLonHelio (jde : Num) : Num :=
+  match Helio.sun_apparent_geocentric_position jde true with
+  | .ok (l, _, _) => l
+  | .error _ => 0.0 / 0.0
+
+/-- `Sun.get_equinox_solstice(year, target)` from the year alone: the loop above with the model's own
+    constructor and the modelled solar longitude; fuel 64 (the implementation makes 3-4 passes). -/
+def get_equinox_solstice_year (year : Int) (target : String) : PyRes (Option Num) :=
+  get_equinox_solstice mkEpoch sunLonHelio 64 year target
+--@end
+
 /-! ## Sun.equation_of_time (Sun.py:567) -/
 
 /-- Mean longitude `l0` (degrees, after `Angle(l0).to_positive()`), from the epoch's JDE. -/
@@ -231,7 +248,31 @@ def rise_h0 (altitude : Num) : Num := -0.83 - 2.076 * psqrt altitude / 60.0
 def rise_cos_om (lat sin_delta cos_delta altitude : Num) : Num :=
   (psin (pradians (rise_h0 altitude)) - psin (pradians lat) * sin_delta) / (pcos (pradians lat) * cos_delta)
 
-/-- Everything `rise_set` computes between `e = Epoch(year, month, day)` and the two final
+/-- Mean solar noon `jstar` (days from J2000): `frac = (10.0 + 32.184 + leap_seconds) / 86400.0`;
+    `cjd = e.jde() - 2451545.0 + frac`; `jstar = cjd - (float(longitude) / 360.0)`. -/
+def rise_jstar (ejde : Num) (leap : Int) (lon : Num) : Num :=
+  ejde - 2451545.0 + (10.0 + 32.184 + ofInt leap) / 86400.0 - (lon / 360.0)
+
+/-- Solar mean anomaly in degrees: `m = (357.5291 + 0.98560028 * jstar) % 360`. -/
+def rise_m (jstar : Num) : Num := pmod (357.5291 + 0.98560028 * jstar) 360.0
+
+/-- The sunrise equation's own ecliptic longitude of the Sun, in radians: `mr = radians(m)`;
+    `c = 1.9148 * sin(mr) + 0.02 * sin(2.0 * mr) + 0.0003 * sin(3.0 * mr)`;
+    `lambd = (m + c + 180.0 + 102.9372) % 360`; `lr = radians(lambd)`. -/
+def rise_lr (m : Num) : Num :=
+  let mr := pradians m
+  let c := 1.9148 * psin mr + 0.02 * psin (2.0 * mr) + 0.0003 * psin (3.0 * mr)
+  pradians (pmod (m + c + 180.0 + 102.9372) 360.0)
+
+/-- `sin_delta = sin(lr) * sin(radians(23.44))` -/
+def rise_sin_delta (m : Num) : Num := psin (rise_lr m) * psin (pradians 23.44)
+
+/-- The sunrise equation's own declination of the Sun (radians, `delta = asin(sin_delta)`) for the
+    day of `ejde`, the longitude and the leap-second count. -/
+def rise_delta (ejde : Num) (leap : Int) (lon : Num) : Num :=
+  pasin (rise_sin_delta (rise_m (rise_jstar ejde leap lon)))
+
+/-- Everything `rise_set` computes between `e = Epoch(year, month, iint(day))` and the two final
     `Epoch(...)` constructions: returns `(jtran, omega, cos_om)`.
     `ejde = e.jde()`, `leap = Epoch.leap_seconds(year, month)`, `lat`/`lon` the `_deg` of the
     Angles, `altitude` in metres.  `ValueError` stands for the latitude test and for
@@ -239,26 +280,15 @@ def rise_cos_om (lat sin_delta cos_delta altitude : Num) : Num :=
 def rise_set_core (ejde : Num) (leap : Int) (lat lon altitude : Num) : PyRes (Num × Num × Num) :=
   -- if latitude > limit or latitude < -limit: raise ValueError
   if plt rise_limit lat || plt lat (aNeg rise_limit) then .error .valueError else
-  -- frac = (10.0 + 32.184 + Epoch.leap_seconds(year, month)) / 86400.0
-  let frac : Num := (10.0 + 32.184 + ofInt leap) / 86400.0
-  -- cjd = e.jde() - 2451545.0 + frac
-  let cjd := ejde - 2451545.0 + frac
-  -- jstar = cjd - (float(longitude) / 360.0)
-  let jstar := cjd - (lon / 360.0)
-  -- m = (357.5291 + 0.98560028 * jstar) % 360 ; mr = radians(m)
-  let m := pmod (357.5291 + 0.98560028 * jstar) 360.0
-  let mr := pradians m
-  -- c = 1.9148 * sin(mr) + 0.02 * sin(2.0 * mr) + 0.0003 * sin(3.0 * mr)
-  let c := 1.9148 * psin mr + 0.02 * psin (2.0 * mr) + 0.0003 * psin (3.0 * mr)
-  -- lambd = (m + c + 180.0 + 102.9372) % 360 ; lr = radians(lambd)
-  let lambd := pmod (m + c + 180.0 + 102.9372) 360.0
-  let lr := pradians lambd
+  let jstar := rise_jstar ejde leap lon
+  let m := rise_m jstar
+  let lr := rise_lr m
   -- jtran = 2451545.5 + jstar + 0.0053 * sin(mr) - 0.0069 * sin(2.0 * lr)
-  let jtran := 2451545.5 + jstar + 0.0053 * psin mr - 0.0069 * psin (2.0 * lr)
+  let jtran := 2451545.5 + jstar + 0.0053 * psin (pradians m) - 0.0069 * psin (2.0 * lr)
   -- sin_delta = sin(lr) * sin(radians(23.44)); delta = asin(sin_delta); cos_delta = cos(delta)
-  let sin_delta := psin lr * psin (pradians 23.44)
+  let sin_delta := rise_sin_delta m
   if plt 1.0 (pabs sin_delta) then .error .valueError else
-  let delta := pasin sin_delta
+  let delta := rise_delta ejde leap lon
   let cos_delta := pcos delta
   -- corr = -0.83 - 2.076 * sqrt(altitude) / 60.0
   if plt altitude 0.0 then .error .valueError else
@@ -273,7 +303,6 @@ def rise_set_core (ejde : Num) (leap : Int) (lat lon altitude : Num) : PyRes (Nu
 /-- The two returned epochs before construction: `jtran - (omega / 360.0)`, `jtran + (omega / 360.0)`. -/
 def rise_set_args (r : Num × Num × Num) : Num × Num := (r.1 - (r.2.1 / 360.0), r.1 + (r.2.1 / 360.0))
 
---@only F
 /-- `Epoch.rise_set(latitude, longitude, altitude)` from the stored JDE: `year, month, day =
     self.get_date(); e = Epoch(year, month, iint(day))` mirrored with EpochCore's `get_date` and
     `epoch_ymd`; `leap` is the implementation's `Epoch.leap_seconds(year, month)`.
@@ -296,7 +325,6 @@ def rise_set (jde : Num) (leap : Int) (lat lon altitude : Num) : PyRes (Num × N
           match mkEpoch (rise_set_args r).2 with
           | .error e => .error e
           | .ok js => .ok (jr, js)
---@end
 
 /-! ## times_rise_transit_set (Coordinates.py:1416) -/
 
